@@ -12,6 +12,7 @@ package main
 import (
 	"bytes"
 	"context"
+	"crypto/sha256"
 	"encoding/base64"
 	"encoding/binary"
 	"encoding/json"
@@ -19,6 +20,8 @@ import (
 	"os"
 	"path/filepath"
 	"sort"
+
+	"github.com/klauspost/compress/zstd"
 
 	"github.com/restic/restic/internal/backend"
 	"github.com/restic/restic/internal/repository/crypto"
@@ -166,6 +169,9 @@ func engineC04Body(c *vctx) error {
 			{"VERIFMARKfilename" + cf.name, false}, {"VERIFMARKdirname" + cf.name, false}, {"VERIFMARKlinktarget" + cf.name, false},
 			{tagm, false}, {"VERIFMARKhost" + cf.name, false}, {"VERIFMARKnewhost" + cf.name, false},
 			{"VERIFMARKkeyhost" + cf.name, true}, {"VERIFMARKkeyuser" + cf.name, true},
+			// JSON field names of lock files (time, exclusive, hostname, username, pid, uid, gid are written in
+			// clear INSIDE the sealed file) and of snapshots
+			{`"exclusive"`, false}, {`"pid"`, false}, {`"uid"`, false}, {`"paths"`, false}, {`"tree"`, false},
 		}
 		e := newVenv(c, "src-"+cf.name)
 		e2 := newVenv(c, "dst-"+cf.name)
@@ -234,6 +240,43 @@ func engineC04Body(c *vctx) error {
 		if err := step("forget-prune", err, se); err != nil {
 			return err
 		}
+		// the remaining commands that write files: repair index, repair packs, migrate (v1), key remove, key passwd
+		_, se, err = e.cli("repair", "index")
+		if err := step("repair index", err, se); err != nil {
+			return err
+		}
+		var somePack string
+		for name := range e.repoFiles() {
+			if len(name) > 5 && name[:5] == "data/" && (somePack == "" || filepath.Base(name) < somePack) {
+				somePack = filepath.Base(name)
+			}
+		}
+		_, se, err = e.cli("repair", "packs", somePack)
+		if err := step("repair packs", err, se); err != nil {
+			return err
+		}
+		if cf.version == "1" {
+			_, se, err = e.cli("migrate", "upgrade_repo_v2")
+			if err := step("migrate", err, se); err != nil {
+				return err
+			}
+			_, se, err = e.cli("backup", "--compression", "max", src) // compressed blobs in the upgraded repository
+			if err := step("backup after migrate", err, se); err != nil {
+				return err
+			}
+		}
+		var keyNames []string
+		for _, o := range e.rec.Ops() {
+			if o.Op == "Save" && !o.Err && o.Type == backend.KeyFile {
+				keyNames = append(keyNames, o.Name)
+			}
+		}
+		if len(keyNames) >= 2 {
+			_, se, err = e.cli("key", "remove", keyNames[1])
+			if err := step("key remove", err, se); err != nil {
+				return err
+			}
+		}
 
 		var files []string
 		var hits []string
@@ -260,15 +303,22 @@ func engineC04Body(c *vctx) error {
 			key = append(key, repo.Key())
 			cancel()
 		}
+		pw3 := filepath.Join(e.base, "pw3")
+		_ = os.WriteFile(pw3, []byte("third-pw\n"), 0o600)
+		_, se, err = e.cli("key", "passwd", "--new-password-file", pw3)
+		if err := step("key passwd", err, se); err != nil {
+			return err
+		}
 		for _, env := range []*venv{e, e2} {
 			seen := map[string]bool{}
 			ops := env.rec.Ops()
 			var list []vop
 			for _, o := range ops {
-				if o.Op != "Save" || o.Err || seen[o.Type.String()+"/"+o.Name] {
+				dk := fmt.Sprintf("%v/%s/%x", o.Type, o.Name, sha256.Sum256(o.Data)) // a retried Save of the same bytes is one object
+				if o.Op != "Save" || o.Err || seen[dk] {
 					continue
 				}
-				seen[o.Type.String()+"/"+o.Name] = true
+				seen[dk] = true
 				list = append(list, o)
 			}
 			sort.SliceStable(list, func(i, j int) bool { return list[i].Type < list[j].Type })
@@ -278,9 +328,23 @@ func engineC04Body(c *vctx) error {
 				case backend.PackFile:
 					files = append(files, c04ParsePack(key, o.Data))
 				case backend.KeyFile:
-					files = append(files, c04ParseKey(o.Data, []string{vPassword, "second-pw"}))
+					files = append(files, c04ParseKey(o.Data, []string{vPassword, "second-pw", "third-pw"}))
 				default:
 					files = append(files, c04ParseSealed(key, o.Data))
+					if o.Type == backend.LockFile && len(o.Data) >= 32 {
+						// the lock's host / user / pid are inside the sealed segment, not beside it
+						pt, oerr := key.Open(nil, o.Data[:16], o.Data[16:], nil)
+						if oerr == nil && len(pt) > 0 && pt[0] == 2 { // v2 container: version byte + zstd
+							if zd, zerr := zstd.NewReader(nil); zerr == nil {
+								pt, _ = zd.DecodeAll(pt[1:], nil)
+								zd.Close()
+							}
+						}
+						c.Hist(fmt.Sprintf("lock-plaintext: opens=%v has-pid-and-hostname=%v", oerr == nil, bytes.Contains(pt, []byte(`"pid"`)) && bytes.Contains(pt, []byte(`"hostname"`))))
+						if oerr == nil && !(bytes.Contains(pt, []byte(`"pid"`)) && bytes.Contains(pt, []byte(`"hostname"`))) {
+							return fmt.Errorf("lock file %s: decrypted content has no pid/hostname fields (marker search for them would be vacuous)", o.Name)
+						}
+					}
 				}
 				scan(o.Type == backend.KeyFile, o.Name, o.Data)
 			}
